@@ -133,7 +133,7 @@ pub fn gen_text(rng: &mut Rng) -> String {
     else { TEXTS[rng.below(TEXTS.len() as u64) as usize].to_string() }
 }
 pub fn gen_sgr(rng: &mut Rng) -> Vec<u32> {
-    let v = [0u32, 1, 3, 4, 5, 7, 9, 22, 23, 24, 25, 27, 29, 30, 31, 37, 39, 40, 41, 47, 49, 38, 48, 5, 2, 196, 255, 256, 300, 90, 95, 97, 100, 105, 107, 15, 16, 231, 232, 8, 21, 26, 50, 98, 108, 9999];
+    let v = [0u32, 0, 0, 0, 7, 27, 1, 3, 4, 5, 7, 9, 22, 23, 24, 25, 27, 29, 30, 31, 37, 39, 40, 41, 47, 49, 38, 48, 5, 2, 196, 255, 256, 300, 90, 95, 97, 100, 105, 107, 15, 16, 231, 232, 8, 21, 26, 50, 98, 108, 9999];
     let n = rng.below(7); (0..n).map(|_| *rng.pick(&v)).collect()
 }
 pub fn gen_modes(rng: &mut Rng) -> (Vec<u32>, bool) {
